@@ -302,7 +302,7 @@ def _collect(E, c, fi, outs, results, short, altdesc, env0, entry_oid, timeout_m
             oid_full = oid
         r = solve.check_valid(pc, goal, timeout_ms, seed=seed, facts=st.facts)
         _dbg = os.environ.get('VERIF_DUMP_OBL')
-        if _dbg and _dbg in oid and r['status'] != 'unsat':
+        if _dbg and _dbg in oid and (r['status'] != 'unsat' or os.environ.get('VERIF_DUMP_ALL')):
             # developer aid: the query as SMT-LIB
             _s = z3.Solver()
             _s.add(*pc)
